@@ -5,6 +5,8 @@ use crate::query::Query;
 
 impl Query for Test {
     fn process<'a, T: Queryable>(&self, state: State<'a, T>) -> State<'a, T> {
+        #[cfg(jsonpath_rust_verif)]
+        crate::verif::point(6);
         match self {
             Test::RelQuery(segments) => segments.process(state),
             Test::AbsQuery(jquery) => jquery.process(state.shift_to_root()),
